@@ -101,8 +101,22 @@ class Exec:
             return {"rdata": [], "rflag": False, "rerr": "other:EmptyYield"}
         return {"rdata": list(r), "rflag": False, "rerr": ""}
 
-    def _settle(self, ev: dict) -> dict:
-        self.loop.run_until_idle()
+    def _guard(self, fn: Any) -> str:
+        """Producer calls are total for legal stimuli: an exception is recorded, not raised."""
+        try:
+            fn()
+            return ""
+        except Exception as exc:  # noqa: BLE001
+            return type(exc).__name__
+
+    def _settle(self, serr: Any, ev: Optional[dict] = None) -> dict:
+        if ev is None:
+            serr, ev = "", serr
+        ev["serr"] = serr
+        try:
+            self.loop.run_until_idle()
+        except Exception as exc:  # noqa: BLE001
+            ev["serr"] = ev["serr"] or ("loop:" + type(exc).__name__)
         ev.setdefault("data", [])
         ev.setdefault("op", "")
         ev.setdefault("n", 0)
@@ -120,28 +134,28 @@ class Exec:
 
     # ---- stimuli
     def feed(self, data: bytes) -> dict:
-        self.reader.feed_data(data)
-        return self._settle({"ev": "feed", "data": list(data)})
+        serr = self._guard(lambda: self.reader.feed_data(data))
+        return self._settle(serr, {"ev": "feed", "data": list(data)})
 
     def begin(self) -> dict:
-        self.reader.begin_http_chunk_receiving()
-        return self._settle({"ev": "begin"})
+        serr = self._guard(lambda: self.reader.begin_http_chunk_receiving())
+        return self._settle(serr, {"ev": "begin"})
 
     def end(self) -> dict:
-        self.reader.end_http_chunk_receiving()
-        return self._settle({"ev": "end"})
+        serr = self._guard(lambda: self.reader.end_http_chunk_receiving())
+        return self._settle(serr, {"ev": "end"})
 
     def eof(self) -> dict:
-        self.reader.feed_eof()
-        return self._settle({"ev": "eof"})
+        serr = self._guard(lambda: self.reader.feed_eof())
+        return self._settle(serr, {"ev": "eof"})
 
     def setexc(self) -> dict:
-        self.reader.set_exception(Boom("boom"))
-        return self._settle({"ev": "setexc"})
+        serr = self._guard(lambda: self.reader.set_exception(Boom("boom")))
+        return self._settle(serr, {"ev": "setexc"})
 
     def unread(self, data: bytes) -> dict:
-        self.reader.unread_data(data)
-        return self._settle({"ev": "unread", "data": list(data)})
+        serr = self._guard(lambda: self.reader.unread_data(data))
+        return self._settle(serr, {"ev": "unread", "data": list(data)})
 
     def nowait(self, n: int) -> dict:
         ev: dict = {"ev": "nowait", "n": n}
@@ -153,7 +167,7 @@ class Exec:
         except BaseException as e:  # noqa: BLE001
             res = {"rdata": [], "rflag": False, "rerr": "other:" + type(e).__name__}
         self.loop.run_until_idle()
-        ev.update({"data": [], "op": "", "then": "none", "via": "direct"})
+        ev.update({"data": [], "op": "", "then": "none", "via": "direct", "serr": ""})
         ev.update(res)
         ev["obs"] = self.obs()
         self.events.append(ev)
@@ -241,6 +255,8 @@ def replay_behaviours(ctx: Ctx, loop: steploop.StepLoop, behs: List[List[Any]], 
             last = st["last"]
             if last["ev"] == "init":
                 continue
+            if last["ev"] in ("call", "nowait", "unread") and x.task is not None:
+                break   # the code is still blocked where the model has returned: the trace so far is judged
             do_stim(x, {k: v for k, v in last.items()})
         x.finish()
         if x.events:
